@@ -1,8 +1,17 @@
 import XmppModel.Prelude.Hex
-/-! Driver module for C08: `handle args` answers one protocol line (fields after the
-property id); `none` means the line is not understood (`!bad-op`). -/
+import XmppModel.Model.ServeProto
+/-! Driver for C08 (see harness/c08 and Model/ServeProto.lean for the line protocol). -/
 namespace XmppModel.Driver.C08
+open XmppModel XmppModel.Serve
 
-def handle (_args : List String) : Option String := none
+def handle (args : List String) : Option String :=
+  match args with
+  | "serve" :: rest => do
+    let o ← handleServe rest
+    pure s!"{encInvs o.invs} {encWritten o.written} {encStop o.result}"
+  | ["header", toks] => do
+    let toks ← XmppModel.Xml.decToks toks
+    pure (expectHeader toks)
+  | _ => none
 
 end XmppModel.Driver.C08
